@@ -324,7 +324,8 @@ func c10(c *ctx) {
 					have[name+" "+im.Path.Value] = true
 				}
 				for _, im := range want.Imports {
-					if !have[im.Alias+" "+strconv.Quote(im.Path)] {
+					// (an alias that repeats the package's own name — io "io" — declares the same name as the plain import)
+					if !have[im.Alias+" "+strconv.Quote(im.Path)] && !(im.Alias == im.Path && have[" "+strconv.Quote(im.Path)]) {
 						c.run.Violate("import:"+id, fmt.Sprintf("the import %s %q of the grammar is not in the generated file (path and alias must be kept)", im.Alias, im.Path), w(map[string]any{"emitted_imports": fmt.Sprint(have)}))
 						break
 					}
@@ -398,7 +399,7 @@ func grammarTexts(c *ctx, r *rand.Rand, nValid, nMut, nRand int) []txt {
 		}
 	}
 	headers := []string{"", "# a comment\n", "// another\n\n", "\n\n  \t\n", "# one\n# two\n\n// three\n", "#\n", "//no space\n \n"}
-	importSets := [][]string{nil, {`import "fmt"`}, {`import f "fmt"`, `import "os/exec"`}, {"import (\n\"strings\"\nx \"os\"\n)"}, {"import (\n \"a/b-c.d\"\n\n y_1 \"z\"\n )"}, {`import"fmt"`}}
+	importSets := [][]string{nil, {`import "fmt"`}, {`import f "fmt"`, `import "os/exec"`}, {"import (\n\"strings\"\nx \"os\"\n)"}, {"import (\n \"a/b-c.d\"\n\n y_1 \"z\"\n )"}, {`import"fmt"`}, {`import io "io"`, `import strconv "strconv"`}}
 	states := []string{"", " n int", " m map[string]struct{ a int }\n f func() { }", " s string // {}", "\n"}
 	esc := []rune("ab'\"[]-\\^\n\t\r\x1b\x7féÿ\u0080AZ09 {}<>/&!?*+.()#←\U0001F600")
 	for i := 0; i < nValid; i++ {
